@@ -25,7 +25,9 @@ class CHECK(FloCheck):
     N_SEARCH = 500
     RULE = ("floeng.gen_auxes programs with recorder deeds in all six contexts of every frame (80 %), gen_susp (10 %), "
             "gen_program (10 %): plain auxiliaries of frames at depths 1-3 and of auxiliaries (2 more levels), 0-2 per "
-            "frame, 6 % of the clauses reuse an original; `done me`, `done <aux>`; go on any/all/<aux> in frame … is done, "
+            "frame, 6 % of the clauses reuse an original of the same framer, 6 % one of any level/framer; 25 % of the main "
+            "framers carry a named clone of a moot framer whose frame names an original that another frame of the chain "
+            "names too (clone above / below, after a further original, two levels deep, or alone); `done me`, `done <aux>`; go on any/all/<aux> in frame … is done, "
             "<aux> is done, tick counter, recurred. Non-trivial = a plain auxiliary is entered; distinct by program")
     TRUSTED = ["correspondence: real Builder + Skedder vs the Lean interpreter (engine 'flo'), full traces; the tree is "
                "/repo with fixes D4, D3b, D3d applied",
@@ -67,7 +69,7 @@ class CHECK(FloCheck):
         return bool(flags) and want is not None and want in flags[0]
 
     def oracle(self, case, out):
-        prog = case["prog"]
+        prog = floeng.expand(case["prog"])      # named clones as explicit non-original auxiliaries
         m = floref.Machine(prog)                       # static structure only
         outline, owner, plain, first = {}, {}, [], {}
         for F in m.framers:
@@ -89,6 +91,7 @@ class CHECK(FloCheck):
                             plain.append((g, it["aux"]))
                 g += 1
         allplain = list(plain)
+        original = {y: fr.get("original", True) for y, fr in enumerate(prog["framers"])}
         sharedplain = [(f, y) for (f, y) in plain if uses[y] > 1]
         plain = [(f, y) for (f, y) in plain if uses[y] == 1]
         frames_of = {}
@@ -145,7 +148,8 @@ class CHECK(FloCheck):
                         return "%s: frame f%d is entered but its auxiliary m%d is %s with main %s" % (
                             where, f, y, "inactive" if snap[y]["active"] is None else "active", snap[y]["main"])
                 else:
-                    if snap[y]["active"] is not None or snap[y]["main"] is not None:
+                    # (a clone's main is fixed: only its activity is judged)
+                    if snap[y]["active"] is not None or (original[y] and snap[y]["main"] is not None):
                         return "%s: frame f%d is not entered but its auxiliary m%d is active (main %s)" % (
                             where, f, y, snap[y]["main"])
                 # (2) exited with the main frame, auxiliaries first; entered with it, after its enter actions
